@@ -13,7 +13,7 @@ THEOREMS = [
     "c17_lower_edge_nonnegative", "c17_defaults_well_formed",
     "c17_first_immediate", "c17_attempts_counted", "c17_at_most_max_plus_one",
     "c17_attempt_not_early", "c17_attempt_not_before_lower_edge", "c17_armed_delay_in_band",
-    "c17_reset_restores", "c17_reset_then_as_fresh", "c17_reset_when_stopped",
+    "c17_options_fixed", "c17_reset_restores", "c17_reset_then_as_fresh", "c17_reset_when_stopped",
     "c17_no_attempt_after_close_partial", "c17_stops_when_told",
     "c17_close_while_waiting_stops", "c17_closed_select_does_not_park", "c17_false_is_justified",
     "c17_nextch_one_position_ahead", "c17_next_arms_current_position",
@@ -59,6 +59,7 @@ WMA_SIG = {
     1: "with-max-attempts-bad-n-not-refused", 2: "with-max-attempts-more-than-n-calls",
     3: "with-max-attempts-nil-iff-success-broken", 4: "with-max-attempts-no-call",
     5: "with-max-attempts-did-not-return",
+    6: "with-max-attempts-call-after-stop", 7: "with-max-attempts-call-before-lower-edge",
 }
 
 
@@ -113,7 +114,7 @@ def run(tier, seed):
     res.coverage.update({
         "evaluations": summary["ri_samples"] + n_loop + n_wma,
         "distinct_nontrivial": summary["distinct_nontrivial"],
-        "rule": "retryIn: %d generated option sets (zero = default fields, caps that bind at once, dyadic and random float multipliers / randomisation factors, magnitudes < 2^40 ns) x 4 schedule positions (reached through NextCh, one after Reset) x ~50 samples, plus gentle multipliers (17/16, 9/8, 33/32, 5/4, 3/2, 1.05, 1.1, 1.01) at positions 62..400 below a far MaxBackoff and two positions in the thousands, each sample with its known jitter draw; non-trivial = position >= 1 or after Reset. loops: fixed corpus (Reset-then-close, close during / before an hour's wait, MaxRetries = 2 with Reset) + random sequences of Next / NextCh / Reset / close / cancel / Next-with-concurrent-stop-at-a-generated-instant on three option classes (ms back-offs; 1 h back-offs; ms then 1 h) + loops whose back-off is zero or negative (Multiplier < 1 decayed below 1 ns; RandomizationFactor 1..5) told to stop and asked 40 more times, run with one P, + unbounded loops of 78..125 Next() calls with multiplier 17/16 or 9/8, each wait timed against its own lower edge; non-trivial = at least one waited attempt or one stop. WithMaxAttempts: n in -1..6, random success patterns (a third of the cases with failing calls that return context.Canceled / DeadlineExceeded, plain or wrapped, NOT from the outer context), closer closed / context cancelled before, inside the k-th call of fn, or concurrently; non-trivial = n >= 1. Distinct by content." % summary["option_sets"],
+        "rule": "retryIn: %d generated option sets (zero = default fields, caps that bind at once, dyadic and random float multipliers / randomisation factors, magnitudes < 2^40 ns) x 4 schedule positions (reached through NextCh, one after Reset) x ~50 samples, plus gentle multipliers (17/16, 9/8, 33/32, 5/4, 3/2, 1.05, 1.1, 1.01) at positions 62..400 below a far MaxBackoff, two positions in the thousands, and loops started with a context deadline far shorter than their back-offs, each sample with its known jitter draw; non-trivial = position >= 1 or after Reset. loops: fixed corpus (Reset-then-close, close during / before an hour's wait, MaxRetries = 2 with Reset) + random sequences of Next / NextCh / Reset / close / cancel / Next-with-concurrent-stop-at-a-generated-instant on three option classes (ms back-offs; 1 h back-offs; ms then 1 h) + loops whose back-off is zero or negative (Multiplier < 1 decayed below 1 ns; RandomizationFactor 1..5) told to stop and asked 40 more times, run with one P, + loops whose context expires long before the back-off does + unbounded loops of 78..125 Next() calls with multiplier 17/16 or 9/8, each wait timed against its own lower edge; non-trivial = at least one waited attempt or one stop. WithMaxAttempts: n in -1..6, random success patterns (a third of the cases with failing calls that return context.Canceled / DeadlineExceeded, plain or wrapped, NOT from the outer context), closer closed / context cancelled before, inside the k-th call of fn, concurrently, DURING a 420+ ms wait (time.AfterFunc armed by fn), or a context whose deadline falls into such a wait; gaps between calls and calls after the stop timed; non-trivial = n >= 1. Distinct by content." % summary["option_sets"],
         "samples": summary["samples"],
         "distribution": {k: summary[k] for k in ("ri", "ri_samples", "option_sets", "loop", "wma", "loop_classes", "loop_waited_attempts", "loop_stops", "loop_async_stops", "loop_attempts_after_stop", "loop_hangs", "loop_known_shape", "wma_kinds", "draws_known")},
         "traces_validated_against_impl": n_loop + n_wma,
@@ -164,7 +165,7 @@ def run(tier, seed):
                               ", closer closed before" if c["PreClosed"] else (", context cancelled before" if c["PreCancel"] else ""),
                               c["Calls"], "nil" if c["Nil"] else "error %r" % c["Err"]),
                           {"kind": "failing-input", "input": c, "case_index": idx, "oracle_code": code,
-                           "expected": "n<=0: error, no call; else 1..n calls (0 only if stopped before, with an error) and nil iff a call succeeded"})
+                           "expected": "n<=0: error, no call; else 1..n calls (0 only if stopped before, with an error) and nil iff a call succeeded; every further call no earlier than the lower edge of its back-off band (Gaps); no call that starts after the closer was closed / the context cancelled or expired when that stop was complete before the (>= 300 ms) back-off could elapse (Late)"})
     if not res.violations:
         # model/implementation disagreement without a property failure
         for name, key in (("Mri", "ri"), ("Mloop", "loop"), ("Mwma", "wma")):
